@@ -150,6 +150,7 @@ def run(tier, seed):
             rng.shuffle(nxt); nxt = nxt[:d3_sample]
         terms += nxt
         level = nxt if d < 1 else rng.sample(nxt, min(len(nxt), 2500))
+    small_terms = [t for t in terms if depth_of(t) <= 2]
     if core.PART_I > 0:
         # the exhaustive depth <= 2 terms belong to part 0; the other parts explore their own samples of depth 3
         terms = [t for t in terms if depth_of(t) >= 3]
@@ -229,7 +230,7 @@ def run(tier, seed):
     # histories of two or three declarations on ONE environment: a later declaration binds names an earlier one bound, to values of the twin
     # library (numerically equal, inexact) or of the same library under other names; after each declaration the names it yields have ITS values
     jobs, meta = [], []
-    small = [t for t in terms if depth_of(t) <= 2]
+    small = small_terms
     for _ in range(1500 if tier == "quick" else core.share(20000)):
         decls = []
         for j in range(rng.choice([2, 2, 3])):
@@ -237,26 +238,36 @@ def run(tier, seed):
             which = rng.choice(["lib", "twin", "twin"]) if j else rng.choice(["lib", "lib", "twin"])
             decls.append((t, which))
         texts = ["(import %s)" % to_text(t, TWIN if w == "twin" else rng.choice([LIBN, LIBS])) for t, w in decls]
+        # a declaration may carry a further import set that fails (a library that does not exist): the declaration as a whole fails and binds nothing
+        failing = [False] * len(decls)
+        for j in range(len(decls)):
+            if rng.random() < 0.2:
+                failing[j] = True
+                texts[j] = texts[j][:-1] + " " + rng.choice(["(s nosuch)", "(only (no lib) q)", "(prefix (s nosuch) z-)"]) + ")"
         steps = []
         for tx in texts:
             steps += [{"src": tx}, {"env_names": True}]
-        jobs.append({"id": "c12h", "interps": [interp], "steps": steps, "fuel": 100000}); meta.append((decls, texts))
+        jobs.append({"id": "c12h", "interps": [interp], "steps": steps, "fuel": 100000}); meta.append((decls, texts, failing))
     recs = core.run_jobs(jobs, leg, timeout=900, tag="c12h")
-    for (decls, texts), rec in zip(meta, recs):
+    for (decls, texts, failing), rec in zip(meta, recs):
         if rec is None or "steps" not in rec:
             ctx.inconclusive_cases += 1; continue
         ctx.evaluations += 1
         exp = {}
         bad = None
         for j, (t, w) in enumerate(decls):
-            exp.update(ev(t, TWIN_EXPORTS if w == "twin" else EXPORTS))
+            if not failing[j]:
+                exp.update(ev(t, TWIN_EXPORTS if w == "twin" else EXPORTS))
             k0, v0 = core.outcome(rec["steps"][2 * j])
             got = observed_map(rec["steps"][2 * j + 1])
-            if k0 != "ok" or got != exp:
+            if (k0 == "ok") == failing[j] or got != exp:
                 bad = (j, got, rec["steps"][2 * j]); break
+            if failing[j]:
+                ctx.count("failing_declarations_bind_nothing")
         if bad:
             j, got, st = bad
-            ctx.violation({"what": "after a later import declaration on the same environment the names it yields are not bound to the values of ITS library", "kind": "import-history",
+            ctx.violation({"what": ("a declaration with a failing import set did not fail as a whole or left bindings behind" if failing[j] else
+                                    "after a later import declaration on the same environment the names it yields are not bound to the values of ITS library"), "kind": "import-history",
                            "declarations": texts[:j + 1], "expected": {k: str(v) for k, v in exp.items()}, "observed": {k: str(v) for k, v in (got or {}).items()} if got is not None else None,
                            "import_outcome": st if "ok" not in st else "ok", "dedupe": "hist|%d" % j}, {"texts": texts})
         else:
